@@ -309,8 +309,8 @@ pub fn run(ctx: &mut Ctx) {
     }
 
     // ---- exhaustive: every two-cut partition (i ≤ j, empty middle segment included) of small records
-    let n_small = ctx.n(4, 10);
-    let small_max = ctx.n(110, 200);
+    let n_small = ctx.n(16, 32);
+    let small_max = ctx.n(150, 200);
     for k in 0..n_small {
         let rec = if k % 4 == 3 { non_hello(&mut r) } else { gen_small_hello(&mut r, small_max).encode() };
         let n = rec.len();
@@ -334,7 +334,7 @@ pub fn run(ctx: &mut Ctx) {
     }
     // thorough: every two-cut partition of records up to 600 bytes
     if ctx.tier == crate::Tier::Thorough {
-        for _ in 0..2 {
+        for _ in 0..5 {
             let rec = gen_hello(&mut r, Profile::Clean).encode();
             let rec = if rec.len() > 600 { gen_padded_hello(&mut r, 600).encode() } else { rec };
             let n = rec.len();
@@ -367,7 +367,7 @@ pub fn run(ctx: &mut Ctx) {
     }
 
     // ---- generated: hellos / non-hellos / mutated hellos × random k-cut partitions, with and without tail
-    for case in 0..ctx.n(1500, 30000) {
+    for case in 0..ctx.n(3000, 80000) {
         let kind = r.below(10);
         let mut rec = match kind {
             0..=4 => gen_hello(&mut r, Profile::Wide).encode(),
@@ -426,7 +426,7 @@ pub fn run(ctx: &mut Ctx) {
     }
 
     // ---- several flows interleaved on one cache (capacity below / at / above the number of flows)
-    for _ in 0..ctx.n(300, 5000) {
+    for _ in 0..ctx.n(500, 15000) {
         let nflows = r.range(2, 4) as usize;
         let mut queues: Vec<Vec<Vec<u8>>> = Vec::new();
         for _ in 0..nflows {
